@@ -182,6 +182,20 @@ def assume(I, *conds):
         I.P.assume(c.e if isinstance(c, SBool) else c)
 
 
+def conj(*parts):
+    """conjunction of Python truth values and z3 formulas that never asks a z3 formula for its truth value
+    (`formula and x` evaluates bool(formula), which is a structural comparison and silently drops x when it is False)"""
+    zs = []
+    for p_ in parts:
+        if isinstance(p_, SBool):
+            p_ = p_.e
+        if isinstance(p_, z3.ExprRef):
+            zs.append(p_)
+        elif not p_:
+            return False
+    return z3.And(*zs) if zs else True
+
+
 def zz(I, x):
     return I.P.z(x)
 
